@@ -52,7 +52,7 @@ EDITS = ["drop_type", "drop_shape", "empty_optional_output", "none_input", "rena
 def gen_case(run_seed: int, tier: str, index: int = 0) -> dict:
     r = Streams(run_seed).rng("workload")
     params = dict(
-        p_graphs=Streams(run_seed).rng("graphs-attr").choice([0.0, 0.0, 0.12, 0.25]), more_ops=Streams(run_seed).rng("more-ops").random() < 0.5, n_nodes=r.choice([1, 3, 5, 8, 12]), n_inputs=r.choice([0, 1, 2]), n_inits=r.choice([0, 1, 2, 3]), n_outputs=r.choice([1, 2]),
+        p_graphs=Streams(run_seed).rng("graphs-attr").choice([0.0, 0.0, 0.12, 0.25]), ref_graph_attrs=Streams(run_seed).rng("ref-graph-attrs").choice([0.0, 0.0, 0.6]), more_ops=Streams(run_seed).rng("more-ops").random() < 0.5, n_nodes=r.choice([1, 3, 5, 8, 12]), n_inputs=r.choice([0, 1, 2]), n_inits=r.choice([0, 1, 2, 3]), n_outputs=r.choice([1, 2]),
         n_functions=r.choice([0, 1, 2]), depth=r.choice([0, 1, 2]), typed=r.random() < 0.6, unsorted=r.random() < 0.3, p_if=r.choice([0.15, 0.35]),
         metadata=r.random() < 0.5, init_as_input=r.choice([0.0, 0.4]), ir_version=r.choice([8, 9, 10, 10, 11, 12]), p_multi=0.2, name_style=r.choice([0, 0, 1]),
     )  # fmt: skip
